@@ -198,7 +198,7 @@ fn walk(words: &[u8], packet_lens: &[u32]) -> Result<Vec<u64>, Fail> {
                 ));
             }
             model = St::Ihw;
-            fsm_shadow.reset_fsm();
+            let _ = fsm_shadow.reset_fsm();
             pos += 64 + junk.len() as u64;
         }
         let n = n.min(all.len() - wi.min(all.len()));
@@ -242,7 +242,9 @@ fn walk(words: &[u8], packet_lens: &[u32]) -> Result<Vec<u64>, Fail> {
                         let _ = fsm_shadow.advance(&c[..10]);
                     }
                 }
-                Err(_) => fsm_shadow.reset_fsm(),
+                Err(_) => {
+                    let _ = fsm_shadow.reset_fsm();
+                }
             }
             model = St::from_id(fsm_shadow.verif_state_id()).unwrap_or(St::Ihw);
             wi += n;
